@@ -337,7 +337,7 @@ func concreteReqHeader(class string, rng *rand.Rand, slot int) []hpair {
 
 func concreteReqBody(class string, rng *rand.Rand, key string) (body []byte, chunked bool, pieces []int) {
 	size := map[string]int{"len0": 0, "len1": 1, "len-small": 10 + rng.Intn(500), "len-4095": 4095, "len-4096": 4096, "len-4097": 4097,
-		"len-32768": 32768, "len-32769": 32769, "len-100k": 100000, "big": 1 << 20}
+		"len-32768": 32768, "len-32769": 32769, "len-100k": 100000, "big": 1<<20 + 4097} // (just beyond a megabyte: a round limit someone might put on bodies)
 	if hx.Thorough() {
 		size["big"] = 8 << 20
 	}
@@ -1189,6 +1189,10 @@ func identityDriver(a *Args) {
 		}
 		if k.shim {
 			args = append(args, "--shim-websockets", "--shim-path=shimz")
+			if k.fwd != k.strip || k.sessions {
+				// (the shim's own option: the handshake carries the Host of the client's request)
+				args = append(args, "--rewrite-websocket-host")
+			}
 		}
 		if k.sessions {
 			args = append(args, "--session-cookie-name=vsess", "--disable-ssl-for-test")
